@@ -10,9 +10,9 @@ NUMBER_FORMATS = {"number-printf": "%.2f", "number-sexa": "%.6m", "number-sexa3"
 
 def target_vector(variant, enabled=True):
     kind = variant.split("-")[0]
-    v = dict(attr="t", kind=kind, name="TGT", enabled=enabled, label="Target")
+    v = dict(attr="t", kind=kind, name="TGT", enabled=enabled, label="Target \u00b5m <&>")  # non-ASCII + markup in metadata
     if kind == "text":
-        v["elements"] = [dict(attr="a", name="A", default="x", label="El A"), dict(attr="b", name="B", default="y")]
+        v["elements"] = [dict(attr="a", name="A", default="x", label="El A \u2603"), dict(attr="b", name="B", default="y")]
     elif kind == "number":
         fmt = NUMBER_FORMATS[variant]
         # element A states its range, element B relies on the definition defaults
@@ -38,7 +38,7 @@ def bystander_vector(variant):
 def device_spec(name, variant, vec_enabled=True, grp_enabled=True, depth=1, ngroups=2):
     """target vector in group g1 declared in the DEEPEST base class; bystander in g2 (most derived class);
     optional third group g3 in the middle."""
-    groups = [dict(attr="g1", name="Main", enabled=grp_enabled, level=0, vectors=[target_vector(variant, vec_enabled)])]
+    groups = [dict(attr="g1", name="Main \u00e9", enabled=grp_enabled, level=0, vectors=[target_vector(variant, vec_enabled)])]
     if ngroups >= 2:
         groups.append(dict(attr="g2", name="Side", enabled=True, level=depth - 1, vectors=[bystander_vector(variant)]))
     if ngroups >= 3:
